@@ -10,7 +10,7 @@ RULE = ("one content class of n paths (n<=3 quick, <=4 thorough; 25-byte or 2000
         "the paths into inodes (hard links), every placement into roots r1/r1x (one name a string prefix of the other) and a sub-directory, optional "
         "replacement of a path by a relative/absolute symlink to another member; x {none,-H,--isolate,-S,-S -H,-L,"
         "-L -S,--isolate -H} x {--rf-over 0..3, --rf-under 1..3, --unique} x root order; overlapping input paths (r1/sub before / after r1, r1/sub/deep with r1/sub/..) x {none, -H}; spelling sub-space: the same "
-        "scenarios with roots spelled absolute, relative, ./r, r/, r/../r and through a directory symlink. Oracle: "
+        "scenarios with roots spelled absolute, relative, ./r, r/, r/../r, through a directory symlink, and relative to --base-dir with the command started elsewhere. Oracle: "
         "replica count from the statement (distinct inodes, paths under -H, roots under --isolate), strict filter, "
         "all paths of a reported class listed, same verdict for every spelling. Non-trivial = class with >= 2 paths "
         "or a link; distinct by (structure, flags, filter, spelling).")
@@ -21,7 +21,7 @@ ASSUMPTIONS = ["under --isolate, links (hard or symbolic) that cross roots and o
 FLAGSETS = [[], ["-H"], ["--isolate"], ["-S"], ["-S", "-H"], ["-L"], ["-L", "-S"], ["--isolate", "-H"]]
 FILTERS = [[], ["--rf-over", "0"], ["--rf-over", "2"], ["--rf-over", "3"], ["--rf-under", "1"], ["--rf-under", "2"],
            ["--rf-under", "3"], ["--unique"]]
-SPELLINGS = ["rel", "abs", "dot", "slash", "dotdot", "symlink"]
+SPELLINGS = ["rel", "abs", "dot", "slash", "dotdot", "symlink", "basedir"]
 
 
 def prepare(tier):
@@ -42,7 +42,7 @@ def set_partitions(n):
 
 
 def spell(root, how, tree_root_placeholder="@TREE@"):
-    if how == "rel":
+    if how in ("rel", "basedir"):      # basedir: relative to --base-dir, the command runs elsewhere
         return root
     if how == "abs":
         return tree_root_placeholder + "/" + root
@@ -172,7 +172,10 @@ def evaluate(case):
         exp_rep = set(e["paths"] for e in exp if e["reported"])
         for sp in case["spellings"]:
             roots = [subst(spell(r, sp), sc.tree) for r in case["roots"]]
-            rc, out, err, to = C.fclones(["group"] + case["args"] + roots + ["-f", "json"], sc)
+            if sp == "basedir":
+                rc, out, err, to = C.fclones(["group", "--base-dir", sc.tree] + case["args"] + roots + ["-f", "json"], sc, cwd=sc.root)
+            else:
+                rc, out, err, to = C.fclones(["group"] + case["args"] + roots + ["-f", "json"], sc)
             if to or rc != 0:
                 viol.append({"kind": "crash" if (to or b"panicked" in err) else "error_exit", "root_spelling": sp,
                              "flags": " ".join(meta["flags"]), "filter": meta["filter"],
